@@ -468,14 +468,16 @@ def k3(ctx, kr):
     key = [k for k in P.items if k[0] == 'ironplcc' and re.fullmatch(r'lsp::<impl at [^>]*>::run', k[1])][0]
     env = LSP.Env(P); st = {}
     def st_tokenize(M, fr, callee, a):
+        st['tok_failed'] = False
         if M.branch(M.fresh_bool('tokenize_ok')): return ok(VecV([]))
+        st['tok_failed'] = True
         return err(VecV([]))
     def st_into(M, fr, callee, a): return IterV(list(st['msgs']))
     stubs = env.stubs(); stubs[r'^lsp_project::LspProject::tokenize$'] = st_tokenize
     stubs[r'^<&crossbeam_channel::Receiver<.*> as std::iter::IntoIterator>::into_iter$'] = st_into
     M = Machine(P, stubs=stubs)
     def entry(M):
-        env.sent.clear(); env.json_ok.clear()
+        env.sent.clear(); env.json_ok.clear(); st['tok_failed'] = False
         meth, v, ids = LSP.sym_method(M, 'method', list(LSP.REQ_METHODS)); st['m'] = (meth, v, ids)
         env.params['SemanticTokensFullRequest'] = lambda: LSP.mkstruct(P, 'SemanticTokensParams', text_document=LSP.mkstruct(P, 'TextDocumentIdentifier', uri=Agg('Url', [Str('file:///d.st')])))
         env.params['Shutdown'] = UNIT
@@ -493,7 +495,8 @@ def k3(ctx, kr):
         nm = nm[0] if nm else 'some/otherMethod'
         bad = [t for t, b in env.json_ok.items() if not z3.is_true(m.eval(b, True))]
         wit = {'method': other or nm, 'params_deserialise': not bad}
-        rep = ('lsp_single_request', (other or nm, bool(bad)))
+        rep = ('lsp_single_request', (other or nm, bool(bad), bool(st.get('tok_failed'))))
+        wit['document_tokenizes'] = not st.get('tok_failed')
         if pr.panic: _add(kr, 'C12/K3/panic/%s%s' % ('malformed-' if bad else '', nm), 'the message loop panics on a %s request: %s' % (nm, pr.panic.msg[:60]), wit, rep); return
         resp = [x for x in _msgs_in(M, env, None) if isinstance(x, EnumV) and x.name == 'Message' and x.disc == 1]
         n = len(resp)
@@ -512,13 +515,14 @@ def k3(ctx, kr):
     kr.exhaustive = True
 
 @replay_factory('lsp_single_request')
-def _replay_single_request(method, malformed):
+def _replay_single_request(method, malformed, tokenize_fails=False):
     def rp(ctx):
         import lspclient
         s = lspclient.LspSession(ctx.ironplcc_path())
         try:
             s.initialize(); uri = 'file:///tmp/verif_c12s.st'
-            s.did_open(uri, 'PROGRAM p\nEND_PROGRAM\n', 1); s.diagnostics_for(uri, timeout=10)
+            # a document that does not tokenize: text with a character that is no token
+            s.did_open(uri, 'PROGRAM p\nEND_PROGRAM\n' if not tokenize_fails else 'PROGRAM p ` \nEND_PROGRAM\n', 1); s.diagnostics_for(uri, timeout=10)
             m = method if method != 'some/otherMethod' else 'textDocument/hover'
             if m == 'shutdown': params = {} if malformed else None
             else: params = {'bogus': 1} if malformed else ({'textDocument': {'uri': uri}, 'position': {'line': 0, 'character': 0}} if 'hover' in m else {'textDocument': {'uri': uri}})
